@@ -54,6 +54,11 @@ func enumSer(R *vlib.Out, prop string, budget, valdev, maxEntries int, sweeps bo
 					hp, tp := hps[len(hps)-1], tps[0]
 					for i, l := range ls {
 						vals := valuesFor(l.n.Typ, t)
+						if l.p.Route == 'p' && withSubMs {
+							// texts a peer may send that are not what the library would print: a parsed Float
+							// keeps its source text and puts it back on the wire (C01 / C17 only)
+							vals = append(vals, nonCanonical[l.n.Typ]...)
+						}
 						old := l.p.Val
 						for _, v := range vals[1:] {
 							l.p.Val = v
